@@ -61,7 +61,13 @@ def run(chk):
                  "class GItem { public int w = %d; public constructor() -> GItem = default; }" % (a + b),
                  "class GTag { public int v; public constructor(int v) -> GTag { this.v = v; return this; } }",
                  "class GBox<T extends GItem> { public T it; public static int made = 0; public constructor(T it) -> GBox<T> { this.it = it; made = made + 1; return this; } public function w() -> int { return it.w + made; } }",
-                 "function main() -> void { GLeaf x = new GLeaf(); echo(x.gb); echo(x.gm); echo(x.gl); echo(x.id()); echo(x.tagv()); GBase y = new GLeaf(); echo(y.id()); "
+                 "class GDog extends GItem { public constructor() -> GDog { super(); return this; } }",
+                 "class GCrate<T> { public T item; public int puts = 0; public constructor() -> GCrate<T> = default; public function put(T x) -> void { this.item = x; puts = puts + 1; } }",
+                 "class GKennel extends GCrate<GDog> { public constructor() -> GKennel { super(); return this; } }",
+                 "class GPlant { public int h = 2; public constructor() -> GPlant = default; }",
+                 "class GHouse<T extends GPlant> { public T crop; public constructor(T crop) -> GHouse<T> { this.crop = crop; return this; } }",
+                 "function kennel() -> int { GKennel k = new GKennel(); k.put(new GDog()); GHouse<GPlant> g = new GHouse<GPlant>(new GPlant()); return k.puts + g.crop.h; }",
+                 "function main() -> void { echo(kennel()); GLeaf x = new GLeaf(); echo(x.gb); echo(x.gm); echo(x.gl); echo(x.id()); echo(x.tagv()); GBase y = new GLeaf(); echo(y.id()); "
                  "GBox<GItem> bx = new GBox<GItem>(new GItem()); echo(bx.w()); GMid<string> ms = new GMid<string>(); echo(ms.gm + ms.gb); }"]
         ps = perms(rng, len(decls), 4)
         cases.append((["\n".join(decls)] + ["\n".join(decls[i] for i in p) for p in ps], ps, [], False))
